@@ -163,7 +163,7 @@ ChrType(pfx, targ) ==
 Reject(why) == [o |-> "reject", why |-> why]
 Unspec(why) == [o |-> "unspec", why |-> why]
 Ok(tys, size, units) ==
-  [o |-> "ok", tys |-> tys, size |-> size, n |-> Len(units),
+  [o |-> "ok", tys |-> tys, size |-> size, n |-> Len(units), osize |-> Len(units) * size,
    bytes |-> FlattenSeq([i \in 1..Len(units) |-> UnitBytes(units[i], size)])]
 
 NumOut(it, size) == it.k = "num" /\ (it.big \/ ~WFits(it.w, size))
@@ -193,7 +193,7 @@ DeclStr(parts, targ) ==
 
 (* image of `long long v = <constant>` : the value, sign- or zero-extended *)
 ValBytes(w, neg) == UnitBytes(w, 4) \o (IF neg THEN <<255, 255, 255, 255>> ELSE <<0, 0, 0, 0>>)
-OkChr(ty, size, w, neg) == [o |-> "ok", tys |-> {ty}, size |-> size, n |-> 1, bytes |-> ValBytes(w, neg)]
+OkChr(ty, size, w, neg) == [o |-> "ok", tys |-> {ty}, size |-> size, n |-> 1, osize |-> 8, bytes |-> ValBytes(w, neg)]
 
 (* 6.4.4.4: character constant *)
 DeclChr(pfx, body, targ) ==
@@ -218,8 +218,28 @@ DeclChr(pfx, body, targ) ==
      ELSE LET w == ItemUnits(it, 4)[1] IN
           OkChr(ty, size, w, pfx = "L" /\ WcharSigned(targ) /\ w[1] >= 32768)
 
-Decl(c) == IF c.ctx = "str" THEN DeclStr(c.parts, c.targ)
-           ELSE DeclChr(c.parts[1].pfx, c.parts[1].body, c.targ)
+DeclLit(c) == IF c.ctx = "str" THEN DeclStr(c.parts, c.targ)
+              ELSE DeclChr(c.parts[1].pfx, c.parts[1].body, c.targ)
+
+(* ---- the literal as initializer of an array object (6.7.9p14, p15, p21, p22) ---------------------------- *)
+(* alen = declared number of elements, -1 = array of unknown size; stor = "static" | "auto" | "member"       *)
+(* ("member": struct { T a[alen]; T b; } s = { LIT, MemberVal } -- the object image includes the member b). *)
+(* d.n counts the terminating zero.  Room for everything: the rest is zero (p21).  Exactly no room for the   *)
+(* terminator: it is dropped (p14 "if there is room").  Fewer elements than characters: 6.7.9p2 makes that a *)
+(* constraint violation, which belongs to C10; here it may be rejected, and if it is accepted the object      *)
+(* still has its declared size and holds the leading elements ("okrej").                                     *)
+Alen(c) == IF "alen" \in DOMAIN c THEN c.alen ELSE -1
+Stor(c) == IF "stor" \in DOMAIN c THEN c.stor ELSE "static"
+Zeros(k) == [i \in 1..k |-> 0]
+MemberVal == 90
+DeclInit(d, alen, stor) ==
+  IF d.o # "ok" \/ alen = -1 THEN d
+  ELSE LET room == alen * d.size
+           img  == IF alen >= d.n THEN d.bytes \o Zeros(room - d.n * d.size) ELSE SubSeq(d.bytes, 1, room)
+           all  == img \o (IF stor = "member" THEN UnitBytes(<<0, MemberVal>>, d.size) ELSE <<>>)
+       IN [d EXCEPT !.o = IF alen >= d.n - 1 THEN "ok" ELSE "okrej", !.bytes = all, !.osize = Len(all)]
+
+Decl(c) == DeclInit(DeclLit(c), Alen(c), Stor(c))
 
 (* ======================================================================== *)
 (* Part 2.  Implementation-shaped model (D = deviations switched on)        *)
@@ -363,15 +383,31 @@ ModelChr(pfx, body, targ, D) ==
      ELSE                            \* t->u.basic.issigned && top bit of the 32-bit unit: sign-extend (only wchar_t = int is signed)
           OkChr(ty, size, d.w, pfx = "L" /\ WcharSigned(targ) /\ d.w[1] >= 32768)
 
-Model(c, D) == IF c.ctx = "str" THEN ModelStr(c.parts, c.targ, D)
-               ELSE ModelChr(c.parts[1].pfx, c.parts[1].body, c.targ, D)
+ModelLit(c, D) == IF c.ctx = "str" THEN ModelStr(c.parts, c.targ, D)
+                  ELSE ModelChr(c.parts[1].pfx, c.parts[1].body, c.targ, D)
+
+(* init.c parseinit (an incomplete array takes the literal's size) + qbe.c dataitem / funcinit: the loop        *)
+(*   for (i = 0; i < string.size && i * w < end - start; ++i) emit unit i;   then zero-fill up to `end`          *)
+(* followed by the next initializer (the member b).  Too long a literal is clipped silently.                    *)
+ModelInit(m, alen, stor) ==
+  IF m.o # "ok" \/ alen = -1 THEN m
+  ELSE LET w    == m.size
+           span == alen * w
+           k    == CHOOSE i \in 0..m.n : (i = m.n \/ i * w >= span) /\ \A j \in 0..(i - 1) : j < m.n /\ j * w < span
+           all  == SubSeq(m.bytes, 1, k * w) \o Zeros(span - k * w)
+                   \o (IF stor = "member" THEN UnitBytes(<<0, MemberVal>>, w) ELSE <<>>)
+       IN [m EXCEPT !.bytes = all, !.osize = Len(all)]
+
+Model(c, D) == ModelInit(ModelLit(c, D), Alen(c), Stor(c))
 
 (* what the declarative side allows an implementation to do *)
 Conforms(m, d) ==
   CASE d.o = "unspec" -> m.o \in {"ok", "reject"}
     [] d.o = "weak"   -> m.o = "reject" \/ (m.o = "ok" /\ \A k \in (d.size + 1)..8 : m.bytes[k] = 0)
     [] d.o = "reject" -> m.o = "reject"
-    [] d.o = "ok"     -> m.o = "ok" /\ m.tys \subseteq d.tys /\ m.size = d.size /\ m.n = d.n /\ m.bytes = d.bytes
+    [] d.o = "ok"     -> m.o = "ok" /\ m.tys \subseteq d.tys /\ m.size = d.size /\ m.n = d.n /\ m.osize = d.osize /\ m.bytes = d.bytes
+    [] d.o = "okrej"  -> m.o = "reject" \/ (m.o = "ok" /\ m.tys \subseteq d.tys /\ m.size = d.size /\ m.n = d.n
+                                            /\ m.osize = d.osize /\ m.bytes = d.bytes)
 
 (* a deviation is held responsible for a case if switching it alone on or alone off changes the model's answer *)
 Fired(c) == IF Model(c, Devs) = Model(c, {}) THEN {}
@@ -428,10 +464,23 @@ EscBodies == {<<BS, e>> : e \in SimpleEscChars \cup {48, 56, 57, 99, 101, 117, 8
 CatBodies == {<<97>>, <<195, 169>>, <<240, 159, 152, 128>>, <<BS, 49, 48, 49>>, <<BS, 120, 102, 102>>,
               <<BS, 120, 49, 48, 48>>, <<>>, <<BS, 49>>, <<56>>}
 
-Families == {"byte", "utf8", "oct", "hex", "esc", "cat"}
+Families == {"byte", "utf8", "oct", "hex", "esc", "cat", "arr"}
+
 Chunks == {[fam |-> f, targ |-> t, pfx |-> p] : f \in Families, t \in Targets, p \in PrefixSet}
 
 One(ctx, t, p, body) == [ctx |-> ctx, targ |-> t, parts |-> <<[pfx |-> p, body |-> body]>>]
+(* literals as initializers of sized arrays: lengths around the literal's own length n (units incl. terminator) *)
+ArrBodies == {<<97, 98>>, <<97, 240, 159, 152, 128>>, <<BS, 120, 55, 102, 103>>, <<>>, <<226, 130, 172, 122, 122, 122>>}
+ArrCases(t, p) ==
+  UNION {LET c0 == One("str", t, p, b)
+             d0 == DeclLit(c0)
+             n  == IF d0.o = "ok" THEN d0.n ELSE 3
+         IN {c0 @@ ("alen" :> a) @@ ("stor" :> st) :
+               a \in {x \in {n - 3, n - 2, n - 1, n, n + 1, n + 3} : x >= 1} \cup {-1},
+               st \in {"static", "auto", "member"}}
+           : b \in ArrBodies}
+  \ {c \in UNION {{One("str", t, p, b) @@ ("alen" :> -1) @@ ("stor" :> "member")} : b \in ArrBodies} : TRUE}
+
 ChunkCases(ch) ==
   LET t == ch.targ  p == ch.pfx IN
   CASE ch.fam = "byte" -> {One(x, t, p, <<b>>) : x \in {"chr", "str"}, b \in 0..255}
@@ -439,6 +488,7 @@ ChunkCases(ch) ==
     [] ch.fam = "oct"  -> {One("str", t, p, s) : s \in OctBodies} \cup {One("chr", t, p, s) : s \in OctChrBodies}
     [] ch.fam = "hex"  -> {One("str", t, p, s) : s \in HexBodies} \cup {One("chr", t, p, s) : s \in HexChrBodies}
     [] ch.fam = "esc"  -> {One(x, t, p, s) : x \in {"chr", "str"}, s \in EscBodies}
+    [] ch.fam = "arr"  -> ArrCases(t, p)
     [] ch.fam = "cat"  ->
          {[ctx |-> "str", targ |-> t, parts |-> <<[pfx |-> p, body |-> a], [pfx |-> q, body |-> b]>>]
             : q \in PrefixSet, a \in CatBodies, b \in CatBodies}
@@ -470,7 +520,13 @@ RItem(size) ==
                  IF Rnd(2) = 0 THEN SubSeq(s, 1, Len(s) - 1) ELSE s        \* truncated / arbitrary incl. surrogate patterns
     [] OTHER  -> RawEnc(Rnd(2048), 2 + Rnd(3))                             \* mostly overlong
 RBody(size, n) == FlattenSeq([i \in 1..n |-> RItem(size)])
-RandomCase(salt) ==
+StorSeq == <<"static", "auto", "member">>
+WithArray(c) ==     \* a third of the accepted random strings become initializers of a sized array
+  LET d == DeclLit(c) IN
+  IF c.ctx # "str" \/ d.o # "ok" \/ Rnd(3) # 0 THEN c
+  ELSE LET a == d.n + Rnd(6) - 3 IN
+       c @@ ("alen" :> IF a < 1 THEN 1 ELSE a) @@ ("stor" :> StorSeq[1 + Rnd(3)])
+RandomCase0(salt) ==
   LET t  == TargetSeq[1 + Rnd(3)]
       p  == PrefixSeq[1 + Rnd(5)]
       sz == ElemSize(p)
@@ -480,6 +536,7 @@ RandomCase(salt) ==
            parts |-> [i \in 1..np |->
                         [pfx |-> (LET r == Rnd(12) IN IF np = 1 \/ r < 6 THEN p ELSE IF r < 11 THEN "" ELSE PrefixSeq[1 + Rnd(5)]),
                          body |-> RBody(sz, Rnd(7))]]]
+RandomCase(salt) == WithArray(RandomCase0(salt))
 
 (* ======================================================================== *)
 (* Part 4.  State machine, invariants, emission                             *)
@@ -502,7 +559,8 @@ Inv_NoAbort == IsCase => Model(cs, {}).o # "abort"
 (* bodies that cannot be rendered as one token are never claimed to be valid *)
 Inv_Wf == IsCase => (Decl(cs).o = "ok" => \A i \in 1..Len(cs.parts) : ScanOk(cs.parts[i].body, IF cs.ctx = "str" THEN DQ ELSE SQ))
 
-Emit == PrintT("VCASE " \o ToJson([fam |-> cs.fam, ctx |-> cs.ctx, targ |-> cs.targ, parts |-> cs.parts, decl |-> Decl(cs),
+Emit == PrintT("VCASE " \o ToJson([fam |-> cs.fam, ctx |-> cs.ctx, targ |-> cs.targ, parts |-> cs.parts,
+                                   alen |-> Alen(cs), stor |-> Stor(cs), decl |-> Decl(cs),
                                    impl |-> Model(cs, Devs), fired |-> Fired(cs)]))
 Inv_Emit == IsCase => Emit
 =============================================================================
